@@ -79,7 +79,12 @@ impl<T> SerializableKey for T {
 #[cfg(feature = "islands")]
 impl<T: serde::Serialize> SerializableKey for T {
     fn ser_key(&self) -> String {
-        serde_json::to_string(self).expect("failed to serialize key")
+        // the key is written into comments (`<!--bo-item-KEY-->`): a `>` can only occur inside
+        // a JSON string, where `\u003e` stands for the same character, and without a `>` the
+        // key cannot end the comment
+        serde_json::to_string(self)
+            .expect("failed to serialize key")
+            .replace('>', "\\u003e")
     }
 }
 
